@@ -631,7 +631,12 @@ impl<T: Storage> RaftCore<T> {
             || m.get_msg_type() == MessageType::MsgRequestVoteResponse
             || m.get_msg_type() == MessageType::MsgRequestPreVoteResponse
         {
-            if m.term == 0 {
+            // A rejected pre-vote response carries the rejecting node's own term, and a node
+            // that has not seen an election yet (term 0) can already have a reason to reject:
+            // a higher priority, or a log that is ahead of the candidate's.
+            let rejected_pre_vote =
+                m.get_msg_type() == MessageType::MsgRequestPreVoteResponse && m.reject;
+            if m.term == 0 && !rejected_pre_vote {
                 // All {pre-,}campaign messages need to have the term set when
                 // sending.
                 // - MsgVote: m.Term is the term the node is campaigning for,
